@@ -48,7 +48,11 @@ func c11ProcessDeals(c *Ctx) {
 	ssax.Instrs(fn, func(in ssa.Instruction) {
 		if call, ok := in.(*ssa.Call); ok {
 			if b, isB := call.Common().Value.(*ssa.Builtin); isB && b.Name() == "append" {
-				apps = append(apps, in)
+				// the append of a response (an append of deals — collecting them to process them in a fixed order — is
+				// not what is judged here)
+				if strings.Contains(call.Type().String(), "Response") {
+					apps = append(apps, in)
+				}
 			}
 		}
 	})
@@ -77,16 +81,43 @@ func c11ProcessDeals(c *Ctx) {
 	r.Check(strings.Contains(ssax.Path(app.(*ssa.Call).Common().Args[1]), "ProcessDeal("), "C11/R1", "dkg.ProcessDeals:response-value", "the response forwarded is the one kyber produced for this deal", c.PosOf(app), "appended value is "+ssax.Path(app.(*ssa.Call).Common().Args[1]))
 	// only own deal skipped
 	var extra []string
+	// the loop in which ProcessDeal is called: a map range (its Next) or an index loop over the collected deals (its
+	// bound test)
 	var iter ssa.Instruction
 	ssax.Instrs(fn, func(in ssa.Instruction) {
-		if n, ok := in.(*ssa.Next); ok {
+		if n, ok := in.(*ssa.Next); ok && ssax.ReachableFrom(fn, n, pd.(ssa.Instruction), nil, nil) && ssax.ReachableFrom(fn, pd.(ssa.Instruction), n, nil, nil) {
 			iter = n
 		}
 	})
+	if iter == nil {
+		for _, cd := range ssax.Conds(fn) {
+			if cd.Op == token.LSS && lenArg(cd.Y) != nil && ssax.ReachableFrom(fn, cd.If, pd.(ssa.Instruction), nil, nil) && ssax.ReachableFrom(fn, pd.(ssa.Instruction), cd.If, nil, nil) {
+				// the deals iterated are all the stored deals: the slice is filled from a range over d.deals
+				la := lenArg(cd.Y)
+				fed := strings.Contains(ssax.Path(la), "range(d.deals)")
+				// (the slice may live in a local captured by sort.Slice's less function)
+				if ld, isLd := la.(*ssa.UnOp); isLd && !fed {
+					if al, isAl := ld.X.(*ssa.Alloc); isAl && al.Referrers() != nil {
+						for _, ref := range *al.Referrers() {
+							if st, isSt := ref.(*ssa.Store); isSt && st.Addr == ssa.Value(al) && strings.Contains(ssax.Path(st.Val), "range(d.deals)") {
+								fed = true
+							}
+						}
+					}
+				}
+				if fed {
+					iter = cd.If
+				}
+			}
+		}
+	}
 	if iter != nil {
 		for _, cd := range ssax.CondsBetween(fn, iter, pd) {
 			p := ssax.Path(cd.X)
 			if cd.Op == token.ILLEGAL && strings.HasPrefix(p, "next(range(") {
+				continue
+			}
+			if cd.If == iter {
 				continue
 			}
 			if cd.Op == token.EQL || cd.Op == token.NEQ {
